@@ -85,6 +85,36 @@ def rule_interpreter_state(rep: Report, repo: Repo) -> None:
         raise AnalysisError('C13.INTERPRETER-STATE: no interpreter-wide setter found in the pipeline (sys.setrecursionlimit expected)')
 
 
+def rule_cache_valid(rep: Report, repo: Repo) -> None:
+    """what is kept for later calls must be a prefix that PARSED: a snapshot taken before the error check of the parse it follows keeps the
+    half-built state of a refused prefix - the next call with that key restores it, skips the files and their errors, and assembles"""
+    rep.rule('C13.CACHE-VALID', 'between the parse of a file and the snapshot of the parser into the stl prefix cache lies the error check of that '
+             'parse (read in call order, module functions of the parser expanded one level): a failed assembly leaves nothing in the cache', 1)
+    from ..pyfacts import calls_in_order
+    snaps = [(q, fn) for q, fn in _functions(repo, PARSER) if any(dotted(c.func) == '_snapshot_parser_to_cache' for c in calls(fn))]
+    if not snaps:
+        raise AnalysisError('C13.CACHE-VALID: no caller of _snapshot_parser_to_cache found')
+
+    def expanded(fn: ast.AST, depth: int = 0) -> List[str]:
+        out: List[str] = []
+        for c in calls_in_order(fn):
+            d = dotted(c.func)
+            if depth < 2 and d and '.' not in d and repo.has_func(PARSER, d) and d not in ('_snapshot_parser_to_cache', 'exit_if_errors'):
+                out += expanded(repo.func(PARSER, d), depth + 1)
+            else:
+                out.append(d)
+        return out
+    for q, fn in snaps:
+        loops_ = [lp for lp in ast.walk(fn) if isinstance(lp, (ast.For, ast.While)) and any(
+            isinstance(c, ast.Call) and dotted(c.func) == '_snapshot_parser_to_cache' for c in ast.walk(lp))]
+        seq = expanded(loops_[0] if loops_ else fn)
+        k_snap = seq.index('_snapshot_parser_to_cache')
+        parses = [i for i, d in enumerate(seq[:k_snap]) if d.split('.')[-1] in ('parse', 'tokenize')]
+        ok = bool(parses) and 'exit_if_errors' in seq[parses[-1] + 1:k_snap]
+        rep.check(ok, 'C13.CACHE-VALID', f'{q}:snapshot after the error check', f'call order before the snapshot: {seq[max(0, k_snap - 6):k_snap + 1]}',
+                  repo.site(PARSER, fn), expected='.. parser.parse, exit_if_errors, _snapshot_parser_to_cache')
+
+
 def rule_globals(rep: Report, repo: Repo) -> None:
     rep.rule('C13.GLOBALS', 'every process-global of the parser is written on the current call\'s path before it is read: the error '
              'flag/text at the top of parse_macro_tree, the per-file text and namespace stack at the top of lex_parse_curr_file '
@@ -472,6 +502,7 @@ def check(rep: Report, repo: Optional[Repo] = None) -> None:
     rep.units = dict(files=PIPELINE, globals=sorted(KNOWN_GLOBALS))
     rule_globals(rep, repo)
     rule_interpreter_state(rep, repo)
+    rule_cache_valid(rep, repo)
     rule_cache_key(rep, repo)
     rule_cache_alias(rep, repo)
     rule_immut(rep, repo)
